@@ -138,3 +138,15 @@ Proof.
   assert (E : 2 ^ 15 = 2 ^ Z.log2 a * 2 ^ (15 - Z.log2 a)) by (rewrite <- Z.pow_add_r by lia; f_equal; lia).
   change (2 ^ 15) with 32768 in E. assert (0 < 2 ^ (15 - Z.log2 a)) by (apply Z.pow_pos_nonneg; lia). nia.
 Qed.
+
+(* every statistics area that process_restart re-initialises or an MCU decoder dereferences in a scan was validated
+   (tbl < NUM_ARITH_TBLS) and allocated by start_pass for that scan: the four conditions are read from the source *)
+Lemma stats_areas_allocated_ : forall prog Ss Ah,
+  (restart_uses_dc prog Ss Ah = true -> sp_allocs_dc prog Ss Ah = true) /\
+  (restart_uses_ac prog Ss Ah = true -> sp_allocs_ac prog Ss Ah = true) /\
+  (decoder_uses_dc prog Ss Ah = true -> sp_allocs_dc prog Ss Ah = true) /\
+  (decoder_uses_ac prog Ss Ah = true -> sp_allocs_ac prog Ss Ah = true).
+Proof.
+  intros prog Ss Ah. unfold restart_uses_dc, restart_uses_ac, sp_allocs_dc, sp_allocs_ac, decoder_uses_dc, decoder_uses_ac.
+  destruct prog, (Ss =? 0), (Ah =? 0); cbn; repeat split; intros H; try exact H; try reflexivity; try discriminate.
+Qed.
